@@ -109,7 +109,7 @@ NonStub == {i \in DOMAIN RealNets : ~RealNets[i].stub}
 Syms(S) == {RealNets[i].sym : i \in S}
 AllNets == Syms(NonStub)
 OptNets == {"BTC", "LTC", "XTN", "DOGE"} \cap AllNets
-SubNets == {"BTC", "LTC"} \cap AllNets
+SubNets == (IF Tier = "t" THEN {"BTC", "LTC", "XTN", "DOGE", "DASH", "ZEC"} ELSE {"BTC", "LTC"}) \cap AllNets
 OvNets == {"BTC", "LTC", "XTN", "DOGE", "BCH", "DASH"} \cap AllNets
 Ok(form, key, n) == Applies(form, Net(n)) /\ KeyApplies(form, Pool[key])
 NK == Len(Pool)
@@ -135,6 +135,9 @@ Subs == {C(f, K(2), n, n, "", s, o, 1, Idx(FALSE, 7), FALSE) :
 \* S5: --override-network
 OvForms == {"se_dec", "wif_c", "sec_c", "xprv", "xpub", "yprv", "ypub", "zprv", "a_p2pkh", "a_p2wpkh", "E_prv"}
 OvPairs == {q \in OvNets \X OvNets : q[1] # q[2]}
+\* (thorough) every ordered pair of networks, for the three forms whose text every network can write
+OvAll == IF Tier # "t" THEN {} ELSE
+         {C(f, K(5), q[1], q[1], q[2], S0, Json1, 1, Idx(TRUE, 3), FALSE) : f \in {"wif_c", "xprv", "a_p2pkh"}, q \in {r \in AllNets \X AllNets : r[1] # r[2]}}
 Override == {C(f, K(2), q[1], q[1], q[2], S0, Json1, 2, Idx(FALSE, 1), FALSE) : f \in OvForms, q \in OvPairs}
             \cup {C("xprv", K(2), q[1], q[1], q[2], <<"0", "H", "/", "1">>, O(FALSE, FALSE, FALSE, "w"), 0, Master0, FALSE) : q \in OvPairs}
 \* S6: every key of the pool
@@ -142,7 +145,7 @@ PoolSweep == {C(f, k, "BTC", "BTC", "", S0, o, 0, Master0, o = NoOpts) : f \in A
 
 \* ("m": a handful of cases, for the runs in which a deliberately wrong operator must break a lemma)
 Mini == {C(f, 1, "BTC", "BTC", "", S0, o, 0, Master0, FALSE) : f \in {"wif_c", "xprv", "yprv", "sec_c", "a_p2pkh"}, o \in {NoOpts, O(TRUE, TRUE, FALSE, "")}}
-Cases == {c \in (IF Tier = "m" THEN Mini ELSE Sweep \cup Detect \cup Options \cup Subs \cup Override \cup PoolSweep) : Ok(c.form, c.key, c.net)}
+Cases == {c \in (IF Tier = "m" THEN Mini ELSE Sweep \cup Detect \cup Options \cup Subs \cup Override \cup OvAll \cup PoolSweep) : Ok(c.form, c.key, c.net)}
 
 \* deliberately wrong variants (substituted by the _bad*.cfg files): each must violate the lemma named in the cfg
 BadWifPayloadT(N, k, compressed) == Cat(<<B(N.wif), Ser256(k)>>)                      \* the compression marker is never written
@@ -216,7 +219,11 @@ Tables == Shows => \A i \in DOMAIN shwn : ~shwn[i].refused =>
   /\ RowKeys(Template(shwn[i].tpl)) = RowKeys(rows)
 \* lemmas on the literal keys of the pool (facts: the pool's points and hashes)
 Literal == kase.form \notin FormsSeed /\ (kase.sub = S0 \/ kobj.cls \in {"key", "contract"})
-Concrete == Shows /\ Literal => \A i \in DOMAIN shwn : ~shwn[i].refused => ConcLemmas(shwn[i].obj, Net(onnet), FactsOf(Pool[kase.key]))
+\* (the feed-back lemma on the cases whose fields the harness feeds back as well, and on the overridden ones)
+Concrete == Shows /\ Literal => \A i \in DOMAIN shwn : ~shwn[i].refused =>
+  LET o == shwn[i].obj  N == Net(onnet)  F == FactsOf(Pool[kase.key]) IN
+  /\ WifRowsDecode(o, N, F) /\ PairRowsAgree(o, N, F)
+  /\ (kase.rf \/ kase.ov # "" => Refeeds(o, N, F))
 \* the ranges: as many tables as the range has paths; a public parent refuses exactly the hardened paths
 Counts == Shows /\ kobj.cls = "hd" /\ ~HasDotPub(kase.sub) =>
   /\ Len(shwn) = Len(Paths(kase.sub))
